@@ -9,8 +9,10 @@ use bevy::{
     input::{
         keyboard::{Key, KeyboardInput, NativeKey},
         mouse::{MouseButtonInput, MouseMotion, MouseScrollUnit, MouseWheel},
-        ButtonState, InputPlugin,
+        ButtonState, InputPlugin, InputSystem,
     },
+    app::MainScheduleOrder,
+    ecs::schedule::{NodeId, ScheduleLabel, Schedules},
     prelude::*,
     time::TimeUpdateStrategy,
     ui::Interaction,
@@ -200,11 +202,134 @@ fn post_system(mut commands: Commands) {
     }
 }
 
+/// Applies the `key`/`mb` ops issued in `inject first` mode from the `First` schedule.
+fn first_inject_system(
+    mut keys: ResMut<ButtonInput<KeyCode>>,
+    mut buttons: ResMut<ButtonInput<MouseButton>>,
+) {
+    let (key_ops, button_ops) = {
+        let mut sh = shared();
+        (
+            std::mem::take(&mut sh.first_keys),
+            std::mem::take(&mut sh.first_buttons),
+        )
+    };
+    for (k, pressed) in key_ops {
+        if pressed {
+            keys.press(KEYS[k]);
+        } else {
+            keys.release(KEYS[k]);
+        }
+    }
+    for (b, pressed) in button_ops {
+        if pressed {
+            buttons.press(MOUSE_BUTTONS[b]);
+        } else {
+            buttons.release(MOUSE_BUTTONS[b]);
+        }
+    }
+}
+
+/// Probe in `PreUpdate` after `EnhancedInputSystem`.
+fn probe_pre_system() {
+    let mut sh = shared();
+    sh.probe_pre = Some(sh.delivered);
+}
+
+/// Probe in `Update`.
+fn probe_update_system() {
+    let mut sh = shared();
+    sh.probe_update = Some(sh.delivered);
+}
+
+/// Establishes the `sched` facts by introspection of the real `App`.
+fn sched_facts(app: &App) -> String {
+    let world = app.world();
+    let mut eis_in_preupdate = false;
+    let mut inputsystem_before_eis = false;
+    if let Some(schedule) = world
+        .get_resource::<Schedules>()
+        .and_then(|schedules| schedules.get(PreUpdate))
+    {
+        let graph = schedule.graph();
+        let eis = EnhancedInputSystem.intern();
+        let input = InputSystem.intern();
+        let mut eis_node = None;
+        let mut input_node = None;
+        for (id, set, _) in graph.system_sets() {
+            if set.as_dyn_eq().dyn_eq(eis.as_dyn_eq()) {
+                eis_node = Some(id);
+            }
+            if set.as_dyn_eq().dyn_eq(input.as_dyn_eq()) {
+                input_node = Some(id);
+            }
+        }
+
+        if let Some(eis_node) = eis_node {
+            // Any system below the set in the hierarchy graph.
+            let hierarchy = graph.hierarchy().graph();
+            let mut stack: Vec<NodeId> = vec![eis_node];
+            let mut seen: Vec<NodeId> = Vec::new();
+            while let Some(node) = stack.pop() {
+                if seen.contains(&node) {
+                    continue;
+                }
+                seen.push(node);
+                for (from, to, _) in hierarchy.all_edges() {
+                    if from == node {
+                        if to.is_system() {
+                            eis_in_preupdate = true;
+                        } else {
+                            stack.push(to);
+                        }
+                    }
+                }
+            }
+
+            if let Some(input_node) = input_node {
+                inputsystem_before_eis = graph
+                    .dependency()
+                    .graph()
+                    .all_edges()
+                    .any(|(from, to, _)| from == input_node && to == eis_node);
+            }
+        }
+    }
+
+    let mut preupdate_before_update = false;
+    if let Some(order) = world.get_resource::<MainScheduleOrder>() {
+        let position = |label: bevy::ecs::schedule::InternedScheduleLabel| {
+            order.labels.iter().position(|other| *other == label)
+        };
+        if let (Some(first), Some(pre_update), Some(update)) = (
+            position(First.intern()),
+            position(PreUpdate.intern()),
+            position(Update.intern()),
+        ) {
+            preupdate_before_update = first < pre_update && pre_update < update;
+        }
+    }
+
+    let token = |holds: bool, name: &str| {
+        if holds {
+            name.to_string()
+        } else {
+            format!("!{name}")
+        }
+    };
+    format!(
+        "sched {} {} {}",
+        token(eis_in_preupdate, "eis_in_preupdate"),
+        token(inputsystem_before_eis, "inputsystem_before_eis"),
+        token(preupdate_before_update, "preupdate_before_update"),
+    )
+}
+
 struct Runner {
     app: App,
     frame: u64,
     dt: f64,
-    inject_events: bool,
+    inject: InjectMode,
     /// Context-entity handles (dead ones stay).
     entities: BTreeMap<u32, Entity>,
     /// Live UI entities.
@@ -229,7 +354,10 @@ impl Runner {
             .add_input_context::<Ctx<3>>()
             .add_input_context::<Ctx<4>>()
             .add_input_context::<Ctx<5>>()
-            .add_systems(Update, post_system);
+            .add_systems(First, first_inject_system)
+            .add_systems(PreUpdate, probe_pre_system.after(EnhancedInputSystem))
+            // The probe has no deferred parameters, so this ordering adds no sync point.
+            .add_systems(Update, (probe_update_system, post_system).chain());
         register_all!(&mut app,
             0 1 2 3 4 5 6 7 8 9 10 11 12 13 14 15
             16 17 18 19 20 21 22 23 24 25 26 27 28 29 30 31);
@@ -238,7 +366,7 @@ impl Runner {
             app,
             frame: 0,
             dt: 1.0 / 64.0,
-            inject_events: false,
+            inject: InjectMode::Direct,
             entities: BTreeMap::new(),
             uis: HashMap::new(),
             motion: Vec::new(),
@@ -385,12 +513,24 @@ impl Runner {
             sh.frame = self.frame;
             sh.delivered = 0;
             sh.inv.clear();
+            sh.probe_pre = None;
+            sh.probe_update = None;
         }
         self.app.update();
-        let (invocations, deliveries) = {
+        let (invocations, deliveries, probe_pre, probe_update) = {
             let mut sh = shared();
             sh.in_update = false;
-            (std::mem::take(&mut sh.inv), std::mem::take(&mut sh.dlv))
+            (
+                std::mem::take(&mut sh.inv),
+                std::mem::take(&mut sh.dlv),
+                sh.probe_pre,
+                sh.probe_update,
+            )
+        };
+        let probe = |count: Option<u64>| {
+            count
+                .map(|count| count.to_string())
+                .unwrap_or_else(|| "?".into())
         };
 
         let time = self.app.world().resource::<Time<Virtual>>();
@@ -405,6 +545,8 @@ impl Runner {
         for line in invocations.iter().chain(&deliveries) {
             p!(out, "{line}");
         }
+        p!(out, "probe pre {}", probe(probe_pre));
+        p!(out, "probe update {}", probe(probe_update));
         self.print_poll(out);
         self.print_registry(out);
         p!(out, "endframe");
@@ -425,10 +567,10 @@ impl Runner {
                 self.print_registry(out);
             }
             Op::Life(ref life) => self.lifecycle(line, life, out),
-            Op::Key(k, pressed) => {
-                if self.inject_events {
-                    self.key_events.push((k, pressed));
-                } else {
+            Op::Key(k, pressed) => match self.inject {
+                InjectMode::Events => self.key_events.push((k, pressed)),
+                InjectMode::First => shared().first_keys.push((k, pressed)),
+                InjectMode::Direct => {
                     let mut keys = self.app.world_mut().resource_mut::<ButtonInput<KeyCode>>();
                     if pressed {
                         keys.press(KEYS[k]);
@@ -436,11 +578,11 @@ impl Runner {
                         keys.release(KEYS[k]);
                     }
                 }
-            }
-            Op::Mb(b, pressed) => {
-                if self.inject_events {
-                    self.button_events.push((b, pressed));
-                } else {
+            },
+            Op::Mb(b, pressed) => match self.inject {
+                InjectMode::Events => self.button_events.push((b, pressed)),
+                InjectMode::First => shared().first_buttons.push((b, pressed)),
+                InjectMode::Direct => {
                     let mut buttons = self
                         .app
                         .world_mut()
@@ -451,7 +593,7 @@ impl Runner {
                         buttons.release(MOUSE_BUTTONS[b]);
                     }
                 }
-            }
+            },
             Op::Motion(x, y) => self.motion.push(Vec2::new(x, y)),
             Op::Wheel(x, y) => self.wheel.push(Vec2::new(x, y)),
             Op::PadAdd(g) => {
@@ -525,7 +667,7 @@ impl Runner {
                     time.unpause();
                 }
             }
-            Op::Inject(events) => self.inject_events = events,
+            Op::Inject(mode) => self.inject = mode,
             Op::React(frame, k, ref life) => shared().reacts.push((frame, k, life.clone())),
             Op::Post(ref life) => shared().posts.push(life.clone()),
             Op::Frame => self.run_frame(out),
@@ -543,6 +685,7 @@ fn button_state(pressed: bool) -> ButtonState {
 
 pub fn run_app(cfg: Arc<ScnCfg>, ops: &[(String, Op)], out: &mut dyn Write) {
     let mut runner = Runner::new(cfg);
+    p!(out, "{}", sched_facts(&runner.app));
     for (line, op) in ops {
         runner.op(line, op, out);
     }
